@@ -5489,6 +5489,9 @@ class CodegenCtx:
             size_str = self._generate_buflike_length_expr(intexpr.ref)
             if ProgramData.do(ProgramFlag.UNSAFE_STRING_INDEXING):
                 return text
+            if ProgramData.do(ProgramFlag.ALLOCATE_STR_SPACE_DYNAMIC_ON_DEMAND) and self._is_dynamic(intexpr.ref):
+                # the buffer may not have been allocated yet
+                return f"((state->c.{intexpr.ref.name} && ({index}) >= 0 && ({index}) < {size_str}) ? {text} : 0)"
             return f"((({index}) >= 0 && ({index}) < {size_str}) ? {text} : 0)"
         elif isinstance(intexpr, LastCharIntegerExpr):
             return f"(inval)" # name of the last character value
@@ -5604,7 +5607,11 @@ class CodegenCtx:
             else:
                 # if buffer is not freed, ensure strings are made empty
                 if action.into_storage.holds_a(OutputStorageType.STR) and action.into_storage.str_null:
-                    result.add(f"state->c.{action.into_storage.name}[0] = 0;")
+                    if ProgramData.do(ProgramFlag.ALLOCATE_STR_SPACE_DYNAMIC_ON_DEMAND) and self._is_dynamic(action.into_storage):
+                        # the buffer may not have been allocated yet
+                        result.add(f"if (state->c.{action.into_storage.name}) state->c.{action.into_storage.name}[0] = 0;")
+                    else:
+                        result.add(f"state->c.{action.into_storage.name}[0] = 0;")
 
             result.add(f"state->{action.into_storage.name}_counter = 0;");
         elif isinstance(action, (AppendTo, AppendCharTo)):
